@@ -252,6 +252,9 @@ func otherMag(r *rng, mag int) int {
 	return m
 }
 
+// set per case: designation packets that change the character set (the Go ground truth then cannot tell the text: oracle off)
+var tmDesignations bool
+
 var tmTexts = []string{"\x0bNOT OURS\x0a", "\x0b\x0bDISTRACTOR \x01TEXT", "\x0b\x0d other page", "   \x0b index 100 \x0a"}
 
 // units that cannot matter wherever they stand: non-subtitle and stuffing units (even when they carry what
@@ -261,6 +264,9 @@ var tmTexts = []string{"\x0bNOT OURS\x0a", "\x0b\x0bDISTRACTOR \x01TEXT", "\x0b\
 func tmBenign(r *rng, mag int, kinds map[string]int) []byte {
 	row := func(m int) []byte { return rowPacket(m, 1+r.intn(25), []byte(tmTexts[r.intn(len(tmTexts))])) }
 	k := r.intn(12)
+	if tmDesignations && r.chance(1, 4) {
+		k = 8
+	}
 	switch k {
 	case 0:
 		kinds["stuffing"]++
@@ -306,12 +312,20 @@ func tmBenign(r *rng, mag int, kinds map[string]int) []byte {
 		kinds["X/28,M/29 default designation"]++
 		pk := 28 + r.intn(2)
 		dc := uint8(r.intn(16))
+		if tmDesignations && r.chance(2, 3) {
+			dc = []uint8{0, 4}[r.intn(2)]
+		}
 		t := []byte{0, 0, 0}
 		if dc == 0 || dc == 4 {
 			// triplet bits 7..13 (character set designation) stay 0; X/28: format 1 only is looked at at all
 			t[0] = byte(r.intn(2)) << 6
 			t[1] = byte(r.intn(4)) << 6
 			t[2] = byte(r.intn(256))
+			if tmDesignations && r.chance(1, 2) {
+				// a real designation: the last one of the stream decides the character set of every page
+				kinds["X/28,M/29 designation"]++
+				t[1] |= byte([]int{1, 2, 3, 4, 6, 8, 10, 5}[r.intn(8)]) << 2
+			}
 			if pk == 28 && r.chance(1, 2) {
 				t[0] |= byte(1 + r.intn(15)) // other formats: ignored whatever they designate
 				t[1] = byte(r.intn(256))
@@ -401,6 +415,7 @@ func genTmCase(r *rng, wild bool) *tmCase {
 	perInstance := r.chance(1, 3)
 	parityCase := r.chance(1, 5)
 	pesNoise := r.chance(1, 3) // deliveries without time, with another data identifier, empty or truncated
+	tmDesignations = r.chance(1, 4)
 	tc := &tmCase{Oracle: true, Monotone: true, SpecOK: true, Mag: mag, PN: page}
 	if !auto {
 		tc.Page = mag*100 + page
@@ -678,6 +693,10 @@ func genTmCase(r *rng, wild bool) *tmCase {
 		tc.Want[i].Start = (tc.Want[i].Start - first) * 1e6
 		tc.Want[i].End = (tc.Want[i].End - first) * 1e6
 	}
+	if kinds["X/28,M/29 designation"] > 0 {
+		tc.Oracle = false // the harness's own national tables cover the default designation only
+	}
+	tmDesignations = false
 	tc.Human = map[string]interface{}{"magazine": mag, "page": page, "serial": serial, "auto_detect": auto, "charset": charset,
 		"charset_per_instance": perInstance, "deliveries": len(tc.Ds), "kinds": kinds, "expected_cues": tc.Want}
 	if wild {
